@@ -111,6 +111,8 @@ pub struct Driver {
     pub log: Vec<String>,
     /// call `initialize_search_index` after every sign-in (what a client does)
     pub init_search: bool,
+    /// flag bits the `flags` operation toggles (one per call)
+    pub flag_pool: Vec<u64>,
 }
 
 #[derive(Debug, Clone)]
@@ -135,7 +137,7 @@ impl Driver {
         Driver {
             rng, weights, model, password, markers: vec![], files_dir,
             max_folders: 7, max_secrets_per_folder: 8, max_file_bytes: 200_000, allow_large: true,
-            file_plain: BTreeMap::new(), old_folder_keys: vec![], old_account_passwords: vec![], log: vec![], init_search: false,
+            file_plain: BTreeMap::new(), old_folder_keys: vec![], old_account_passwords: vec![], log: vec![], init_search: false, flag_pool: vec![VaultFlags::LOCAL.bits()],
         }
     }
 
@@ -431,7 +433,8 @@ impl Driver {
         let ids = self.folder_ids();
         let f = *self.rng.pick(&ids);
         let cur = self.model.folder(&f)?.flags;
-        let new = cur ^ VaultFlags::LOCAL.bits();
+        let bit = *self.rng.pick(&self.flag_pool.clone());
+        let new = cur ^ bit;
         let op = format!("update_folder_flags(folder={f}, flags={new:#x})");
         let r = account.update_folder_flags(&f, VaultFlags::from_bits_truncate(new)).await;
         let result = match r {
